@@ -5,7 +5,7 @@ import ast
 import os
 from typing import Dict, List, Optional
 
-from ..astutil import Inliner, attr_chain, call_name, const_value, match, returns_of, stmts_of, statement_texts
+from ..astutil import Inliner, ancestors, attr_chain, call_name, const_value, match, returns_of, set_parents, stmts_of, statement_texts
 from ..closedform import classify
 from ..core import OK, UNDECIDED, VIOLATION, VERIF_DIR, AnalysisError, FuncInfo, Repo, Report, unparse
 from ..polarity import D, I, Polarity, mk
@@ -184,6 +184,107 @@ def rule_frozen_value(repo: Repo, rep: Report) -> int:
     return n + 2
 
 
+def checknode_numeric(repo: Repo, rep: Report, cn: FuncInfo) -> None:
+    """An unlisted spelling of the f-function is evaluated (own arithmetic, helpers of fec/utils inlined) on sample LLR
+    pairs for both regimes and two clipping levels and compared with the definitions
+    2 atanh(tanh(a/2) tanh(b/2)) and sign(a) sign(b) min(|a|, |b|)."""
+    import math
+
+    from ..constfold import Unfoldable
+    from ..frag import FragRaise, FragReturn, run_fragment
+
+    funcs = {name: repo.func(FU, name).node for name in ("min_sum", "sum_product")}
+    pts = [(0.5, 0.8), (-1.2, 2.0), (3.0, -0.7), (-2.0, -2.5), (0.3, 4.0), (1.0, 1.0), (6.0, -5.5)]
+    defs = {"sum_product": lambda a, b: 2 * math.atanh(math.tanh(a / 2) * math.tanh(b / 2)), "min_sum": lambda a, b: (1 if a * b > 0 else -1) * min(abs(a), abs(b))}
+    what = "checknode: f-function by regime, clipped to +-clip"
+    for regime, fn in defs.items():
+        for clip in (1000.0, 1.0):
+            for a, b in pts:
+                try:
+                    run_fragment(cn.body, {"y": [a, b]}, {"self.regime": regime, "self.clip": clip}, funcs=funcs)
+                    rep.undecided("SC-SHAPE", cn, what, f"no value returned for regime {regime}", node=cn.node)
+                    return
+                except FragReturn as r:
+                    got = r.value
+                except FragRaise:
+                    rep.violation("SC-SHAPE", cn, what, f"the regime '{regime}' raises", node=cn.node)
+                    return
+                except (Unfoldable, TypeError, ValueError, OverflowError) as exc:
+                    rep.undecided("SC-SHAPE", cn, what, f"not evaluable with literal arithmetic ({exc})", node=cn.node)
+                    return
+                want = max(-clip, min(clip, fn(a, b)))
+                if not (isinstance(got, (int, float)) and abs(got - want) <= 1e-9 * max(1.0, abs(want))):
+                    rep.violation("SC-SHAPE", cn, what, f"regime '{regime}', clip {clip}: f({a}, {b}) evaluates to {got!r}; the definition gives {want!r}", node=cn.node)
+                    return
+    rep.ok("SC-SHAPE", cn, what, f"unlisted spelling; agrees with both definitions on {len(pts)} LLR pairs x 2 clipping levels")
+
+
+def _reindex_steps(fi: FuncInfo):
+    """(`T = T[:, P]` statement, P expression, guards) for every column re-indexing of a tensor by an index vector."""
+    set_parents(fi.node)
+    out = []
+    single = {}
+    for st in stmts_of(fi.body):
+        if isinstance(st, ast.Assign) and len(st.targets) == 1 and isinstance(st.targets[0], ast.Name):
+            single.setdefault(st.targets[0].id, []).append(st.value)
+    for st in stmts_of(fi.body):
+        if not (isinstance(st, ast.Assign) and len(st.targets) == 1 and isinstance(st.targets[0], ast.Name) and isinstance(st.value, ast.Subscript)):
+            continue
+        sl = st.value.slice
+        if not (isinstance(sl, ast.Tuple) and len(sl.elts) == 2 and isinstance(sl.elts[0], ast.Slice) and sl.elts[0].lower is None and sl.elts[0].upper is None):
+            continue
+        if not (isinstance(st.value.value, ast.Name) and st.value.value.id == st.targets[0].id):
+            continue
+        pe = sl.elts[1]
+        if isinstance(pe, ast.Name) and len(single.get(pe.id, [])) == 1:
+            pe = single[pe.id][0]
+        guards = [unparse(a.test) if any(st is x for x in stmts_of(a.body)) else f"not ({unparse(a.test)})" for a in ancestors(st) if isinstance(a, ast.If)]
+        out.append((st, pe, guards))
+    return out
+
+
+def partial_sum_order(rep: Report, f2: FuncInfo, dr: FuncInfo) -> None:
+    """With the interleaved transform (polar_i) a block's codeword is the perfect shuffle of its two re-encoded halves:
+    position 2j carries (x1 xor x2)[j], position 2j+1 carries x2[j]; without it the block is the plain concatenation.
+    The re-indexing steps applied to cat([x1^x2, x2]) in f2 and decode_recursive are evaluated for N = 2..32."""
+    from ..constfold import Unfoldable
+    from ..ndlist import eval_shuffle
+
+    what = "order of the re-encoded partial sums"
+    steps = [(f2, *t) for t in _reindex_steps(f2)] + [(dr, *t) for t in _reindex_steps(dr) if t[0].targets[0].id == "x"]
+    for fi, st, pe, guards in steps:
+        if guards != ["self.polar_i"]:
+            rep.undecided("SC-SHAPE", fi, f"{what}: {unparse(st)}", f"re-indexing under guards {guards} (code shape not recognised)", node=st)
+            return
+    bad = None
+    for N in (2, 4, 8, 16, 32):
+        h = N // 2
+        cur = list(range(N))
+        try:
+            for fi, st, pe, guards in steps:
+                names = {"N": N, "x1": [[0] * h], "x2": [[0] * h], "x": [[0] * N], "n": N}
+                for s_ in stmts_of(fi.body):
+                    if isinstance(s_, ast.Assign) and len(s_.targets) == 1 and isinstance(s_.targets[0], ast.Name) and isinstance(s_.value, ast.Call) and (call_name(s_.value) or "").endswith("cat"):
+                        names[s_.targets[0].id] = [[0] * N]
+                perm = eval_shuffle(pe, names, {}, {})
+                if len(perm.shape) != 1 or sorted(perm.data) != list(range(N)):
+                    raise Unfoldable(f"index vector {perm.data} is not a permutation of 0..{N - 1}")
+                cur = [cur[i] for i in perm.data]
+        except Unfoldable as exc:
+            rep.undecided("SC-SHAPE", dr, what, f"re-indexing not evaluable for N = {N}: {exc}", node=steps[0][1] if steps else dr.node)
+            return
+        want = [v for j in range(h) for v in (j, h + j)]
+        if cur != want and bad is None:
+            bad = (N, cur, want)
+    if not steps:
+        rep.violation("SC-SHAPE", dr, what, "with polar_i the partial sums are never re-interleaved: the parent's g-function pairs x1 with the wrong LLRs", node=dr.node)
+    elif bad:
+        N, cur, want = bad
+        rep.violation("SC-SHAPE", steps[-1][0], f"{what}: {unparse(steps[-1][1])}", f"for a block of N = {N} with polar_i the positions of cat([x1^x2, x2]) come out as {cur} instead of the perfect shuffle {want}: the parent's g-function applies the sign flips to the wrong LLRs (messages are not recovered for N >= {2 * N})", node=steps[-1][1])
+    else:
+        rep.ok("SC-SHAPE", dr, f"{what}: {'; '.join(unparse(s_[1]) for s_ in steps)}", "perfect shuffle of the two halves under polar_i (evaluated for N = 2..32), plain concatenation otherwise", node=steps[-1][1])
+
+
 def rule_sc_shape(repo: Repo, rep: Report) -> int:
     n = 0
     ci = repo.cls(SC, "SuccessiveCancellationDecoder")
@@ -202,14 +303,19 @@ def rule_sc_shape(repo: Repo, rep: Report) -> int:
     swapped = rets.get("self.regime == 'sum_product'") == ["min_sum(y1, y2).clip(-self.clip, self.clip)"]
     if swapped:
         rep.violation("SC-SHAPE", cn, f"checknode regimes: {rets}", "the sum_product regime calls min_sum (regimes exchanged)")
+    elif ok:
+        rep.ok("SC-SHAPE", cn, "checknode: sum_product / min_sum by regime, clipped to +-clip", "f-function")
     else:
-        rep.expect(ok, "SC-SHAPE", cn, "checknode: sum_product / min_sum by regime, clipped to +-clip", "f-function", "checknode dispatch changed")
+        checknode_numeric(repo, rep, cn)
     n += 1
     f2 = repo.method(ci, "f2")
     r = returns_of(f2.node)
     from .c12 import _tt_eval
 
     e = r[-1].value if r else None
+    cats = [c for c in ast.walk(f2.node) if isinstance(c, ast.Call) and match(c, "torch.cat([_A, _B], dim=1)") is not None]
+    if len(cats) == 1:
+        e = cats[0]
     m = match(e, "torch.cat([_A, _B], dim=1)") if e is not None else None
     if m is None:
         rep.undecided("SC-SHAPE", f2, f"partial sums: {unparse(e) if e is not None else '?'}", "not a concatenation of two halves")
@@ -244,8 +350,7 @@ def rule_sc_shape(repo: Repo, rep: Report) -> int:
     halves = {unparse(s.test): [unparse(x) for x in s.body] + ["|"] + [unparse(x) for x in s.orelse] for s in norm if isinstance(s, ast.If) and unparse(s.test) == "self.polar_i" and s.orelse}
     want = ["even_pos = torch.arange(0, N, 2).reshape(-1).to(self.device)", "odd_pos = torch.arange(1, N, 2).reshape(-1).to(self.device)", "|", "even_pos = torch.arange(0, N // 2).reshape(-1).to(self.device)", "odd_pos = torch.arange(N // 2, N).reshape(-1).to(self.device)"]
     rep.expect(halves.get("self.polar_i") == want, "SC-SHAPE", dr, "split: first/second half (natural order) or even/odd (interleaved), by the encoder's polar_i flag", "same pairing as the encoder's butterfly", "LLR split changed")
-    perm = [s for s in stmts_of(dr.body) if isinstance(s, ast.If) and unparse(s.test) == "self.polar_i" and any(unparse(x) == "x = x[:, perm]" for x in s.body)]
-    rep.expect(len(perm) == 1, "SC-SHAPE", dr, "interleaved variant re-permutes the partial sums", "consistent with the encoder's interleaver", "partial-sum permutation changed")
+    partial_sum_order(rep, f2, dr)
     n += 2
     # helpers
     for fname, forms in (("min_sum", ["torch.sign(x) * torch.sign(y) * torch.min(torch.abs(x), torch.abs(y))"]), ("sum_product", ["2 * torch.arctanh(torch.tanh(x / 2) * torch.tanh(y / 2))", "2 * torch.atanh(torch.tanh(x / 2) * torch.tanh(y / 2))"])):
